@@ -245,7 +245,10 @@ def via_trait(op, idx):
 def case_line(c, impl=False):
     ops = c["ops"]
     if impl:
+        import zlib
         ops = [(o.replace(" ", "@t ", 1) if via_trait(o, i) else o) for i, o in enumerate(ops)]
+        # half of the clones go through `Clone::clone_from` into the live destination (the model has one clone)
+        ops = [(o + " from" if o.startswith("clone ") and zlib.crc32(f"{o}#{i}".encode()) % 2 == 0 else o) for i, o in enumerate(ops)]
     return "comp\t%d\t%s" % (c["nregs"], ";".join(ops))
 
 
